@@ -48,6 +48,7 @@ C02Clauses(r) ==
        \cup If2(r.rp_ok /\ (~r.rp_eq \/ r.rp_fields # r.fields), "reparse-equal")
        \cup If2(r.rp_ok /\ d.ok /\ r.rp_consumed # r.cont_len - 1 - d.len, "consumed")
        \* other builder call sequences: a setter called twice (last call wins), will properties without a will
+       \cup If2(r.rw \notin {"na", "ok"}, "rewrite-" \o r.rw)
        \cup If2(r.ow = "differs", "setter-overwrite")
        \cup If2(r.orphan = "unequal", "orphan-will-properties")
 C02Drift(r) == If2(~r.built, "builder-rejected-valid-packet")
@@ -57,6 +58,7 @@ C03Clauses(r) ==
   IF Ext(r.p) THEN {}
   ELSE If2(r.panic # "", "panic")
        \cup If2(r.built /\ (~r.fwd_equal \/ r.cont_len # SizeOf(r.p)), "bytes-forward")
+       \cup If2(r.rwf = "differs", "rewrite-bytes-forward")     \* build without the alias, add_topic_alias: reference bytes
        \cup If2(~r.ref_ok, "reference-parse-accepts")
        \cup If2(r.ref_ok /\ r.ref_fields # r.p, "reference-parse-fields")
 C03Drift(r) == If2(~r.built, "builder-rejected-valid-packet")
